@@ -97,6 +97,10 @@ class C07(Prop):
                      or (cls == "flip_model" and bytes(code) in rb.CODE_TO_MODEL))
         tag = r.choice(unspec_pool) if undecided else r.choice(pool)
         d = gen.broadcast_desc(r, model, r.randrange(10 ** 6), tag)
+        if cls == "valid" and d["state"] == "OFF" and rb.MODELS[model][2] == "WATER_HEATER" and r.random() < 0.15:
+            # a heater that is off says nothing with its countdown bytes (reported as zero whatever they hold): stale or filler values
+            d["remaining"] = r.choice([86400, 0xFFFFFFFF, 0x80000000, r.randrange(86400, 2 ** 32)])
+            self.stale_countdowns = getattr(self, "stale_countdowns", 0) + 1
         data = rb.encode(d, filler=r.randbytes(168) if r.random() < 0.5 else None)
         if cls == "valid":
             return data, "VALID", tag, d
@@ -335,6 +339,8 @@ class C07(Prop):
         acc.count("callback_raised", sum(1 for k2, p2 in log.events if k2 == "loop_exc" and "CallbackBoom" in p2))
         acc.count("valid_sent", sum(1 for p in ports for v, *_ in per_port[p] if v == "VALID"))
         acc.count("valid_delivered", sum(len(delivered[p]) for p in ports))
+        acc.count("off_heaters_with_stale_countdown_bytes", getattr(self, "stale_countdowns", 0))
+        self.stale_countdowns = 0
         nontrivial = False
         for p in ports:
             seen_bad = sched != "never"
